@@ -178,6 +178,10 @@ pub fn run(ctx: &Ctx) -> CheckResult {
     let mut jobs: Vec<(Cfg, usize, bool)> = vec![];
     for c in &cfgs {
         for l in 0..=extra {
+            // MoneyFlowIndex has the largest alphabets: the longest suffixes only for periods 1 and 2
+            if c.kind == Kind::Mfi && c.p[0] >= 3 && l == 2 {
+                continue;
+            }
             jobs.push((*c, c.kind.window(c).unwrap() + l, false));
             // (for MFI the flag selects inexact prices and volumes: cancellation residue in the running
             // totals needs flows that are not exactly representable)
